@@ -200,8 +200,8 @@ func drawPySpec(t *rapid.T) pySpec {
 		}), 1, 2).Draw(t, "lateImportList")
 	}
 	p.CRLF = rapid.IntRange(0, 9).Draw(t, "crlf") == 9
-	p.SharedClass = rapid.IntRange(0, 3).Draw(t, "sharedClassName") == 3
-	p.SharedFunc = rapid.IntRange(0, 3).Draw(t, "sharedFunctionName") == 3
+	p.SharedClass = rapid.IntRange(0, 2).Draw(t, "sharedClassName") == 2
+	p.SharedFunc = rapid.IntRange(0, 2).Draw(t, "sharedFunctionName") == 2
 	return p
 }
 
